@@ -1,7 +1,7 @@
 """Per-property check plans (DESIGN §6).  A plan is a function(ctx) that runs TLC configurations, replays
 their records on the real code, runs relational explorations of the real code and has TLC judge drifted
 records.  Verdict rule (DESIGN §4.3): a VIOLATION comes only from observations of the real code."""
-import os, json, re, time, shutil, random
+import os, json, re, time, shutil, random, zlib
 import vlib
 from vlib import Machinery, V
 
@@ -354,6 +354,15 @@ def plan_C04(ctx):
     f1, n1 = gen_corpus(ctx, 1, "hdrs", "corpus")
     ctx.explore(dict(mode="explore", props=["C04"], cfgs=msg_cfgs(ctx.seed), inputs_file=f1, mutants=4, light=True, shifts=[3, 65000]), "msg K=1 + mutants, sane")
     ctx.explore(dict(mode="lookups", props=["C04"]), "total lookups", count_as_traces=False)
+    # parses on objects that were used, abandoned and reset (caller-supplied arrays): no panic, fields dereferenceable
+    f2, n2 = gen_corpus(ctx, 2, "hdrs", "corpus", keep_every=(9 if ctx.quick else 2))
+    ctx.explore(dict(mode="reset", props=["C04"], cfgs=[mk(hcap=3, ccap=3), mk(hcap=1, ccap=2, flags=4), mk(hcap=64, ccap=4, flags=1)], inputs_file=f2,
+                     light=True, extra=dict(probes=PROBES)), "msg reset histories, sane")
+    ctx.explore(dict(mode="reset", props=["C04"], cfgs=[mk("contacts", ccap=c) for c in (1, 2, 3)] + [mk("headersb", hcap=2, ccap=2)],
+                     atoms=ATOMS["contacts"], maxlen=4 if ctx.quick else 5,
+                     extra=dict(probes=[B("<sip:a@b>, <sip:c@d>;expires=3\r\nX"), B("m: <sip:a@b>, <sip:c@d>\r\n\r\n")])), "contact list reset histories, sane")
+    # isolation: independent calls from 16 goroutines vs the same calls alone
+    ctx.explore(dict(mode="concurrent", props=["C04"], cfgs=msg_cfgs(ctx.seed), inputs_file=f1), "independent calls run concurrently", count_as_traces=False)
     cleanup(ctx)
     ctx.need("real calls", ctx.evaluations, 100000)
 
@@ -363,6 +372,17 @@ def plan_C11(ctx):
                          "else equal (one-shot and resumed through the first suspension).")
     scalar_models(ctx, kinds=("uint",))
     explore_sub(ctx, ["C11"], start=(0,), shifts=SHIFTS_Q if ctx.quick else SHIFTS_T)
+    # relocation of parsed URIs up to the 65 535 limit (offsets {0, 1, 300, 65535-len}): model invariant RelocateOk, replay, TLC judge
+    r = vlib.run_tlc("MC_URIAdj", "MC_URIAdj.cfg", workers=8, timeout=1500)
+    if not r["ok"]: raise Machinery("TLC failed on MC_URIAdj:\n" + r["tail"])
+    ctx.states += r["distinct"]; ctx.transitions += r["generated"]
+    dr = os.path.join(r["dir"], "drift.ndjson")
+    rp = vlib.replay(r["out"], drift_out=dr)
+    ctx.records += rp["extra"]["records"]; ctx.impl_traces += rp["extra"]["records"]; ctx.drift += rp["extra"]["drift"]
+    ctx.tlc_runs.append(dict(module="MC_URIAdj", cfg="MC_URIAdj.cfg", states=r["distinct"], records=rp["extra"]["records"], drift=rp["extra"]["drift"]))
+    if rp["extra"]["drift"]: ctx.judge("Judge_URI", dr)
+    audit_sample(ctx, r["out"], 997 if ctx.quick else 199)
+    shutil.rmtree(r["dir"], ignore_errors=True)
     f1, n1 = gen_corpus(ctx, 1, "hdrs", "corpus")
     ctx.explore(dict(mode="explore", props=["C11"], cfgs=msg_cfgs(ctx.seed), inputs_file=f1, shifts=SHIFTS_Q if ctx.quick else SHIFTS_T, mutants=2, light=True), "msg K=1 shifted")
     f2, n2 = gen_corpus(ctx, 1, "framing", "corpus", keep_every=(3 if ctx.quick else 1))
@@ -403,7 +423,7 @@ def gen_corpus(ctx, K, part, prop, keep_every=1):
             w = tuple(rec["wire"])
             if w in seen: continue
             seen.add(w); n += 1
-            if n % keep_every == 0: f.write(json.dumps(rec["wire"]) + "\n")
+            if keep_every <= 1 or zlib.crc32(line.encode()) % keep_every == 0: f.write(json.dumps(rec["wire"]) + "\n")
     shutil.rmtree(r["dir"], ignore_errors=True)
     ctx._tmp = getattr(ctx, "_tmp", []) + [os.path.dirname(path)]
     if n < 100: raise Machinery("vacuous: generator produced %d messages" % n)
@@ -537,9 +557,17 @@ PROBES = [B("INVITE sip:a SIP/2.0\r\nFrom: <sip:a@b>;tag=1\r\nContact: <sip:a@b>
           B("REGISTER sip:r SIP/2.0\r\nCall-ID: a@b\r\nExpires: 7\r\nContact: \"x\" <sip:a@b>;expires=5;q=0.1\r\n\r\nbody")]
 
 def plan_C12(ctx):
-    ctx.extra["rule"] = ("ResetLikeNew (spec/Props.tla): histories Use(A, stop) . Reset|Init(same arrays) . Use(B): observations of Use(B) equal "
+    ctx.extra["rule"] = ("MC_Reset.tla: TLC enumerates histories (A, stop, B) over atom strings for 18 object kinds/capacities, checks ResetLikeNew on the "
+        "model and each history is replayed on one real object. ResetLikeNew (spec/Props.tla): histories Use(A, stop) . Reset|Init(same arrays) . Use(B): observations of Use(B) equal "
         "those on a newly created object with pristine arrays of the same capacities. A: generated messages / atom strings, stop: "
         "suspended at every (light: every 4th) prefix, complete, failed; B: probe inputs touching every slot, one-shot and cut in half.")
+    # the history model: TLC explores every (A, stop, B) up to the bounds, checks ResetLikeNew on the transcription (KReset =
+    # what the Go Reset leaves, caller arrays included) and every history is executed on ONE real object (drift)
+    for atoms, cfgs, qa, ta in (("AtomsNum", "CfgsNum", (3, 2), (3, 3)), ("AtomsPar", "CfgsPar", (2, 2), (3, 2)),
+                                ("AtomsNA", "CfgsNA", (2, 2), (3, 2)), ("AtomsHdr", "CfgsHdr", (2, 2), (3, 2))):
+        a, b = qa if ctx.quick else ta
+        ctx.tlc("MC_Reset", simple_cfg("reset_%s.cfg" % atoms, ["OffsMod = 65536", "Atoms <- " + atoms, "MaxA = %d" % a, "MaxB = %d" % b,
+                                                              "Cfgs <- " + cfgs, "EmitOn = TRUE"], ["ResetLikeNew", "Emit"]), workers=8, timeout=3000, min_records=1000)
     f1, n1 = gen_corpus(ctx, 2, "hdrs", "corpus", keep_every=(6 if ctx.quick else 1))
     ctx.explore(dict(mode="reset", cfgs=[mk(), mk(hcap=1, ccap=1), mk(hcap=3, ccap=3, flags=1), mk(hcap=0, ccap=0, flags=4)], inputs_file=f1,
                      light=True, mutants=1, extra=dict(probes=PROBES)), "msg reset histories")
@@ -590,6 +618,18 @@ def plan_C10(ctx):
         "code one-shot and with a cut inside the number.  Reply status codes: all 1000 codes in the C08 generator.")
     for pos in ("expires", "clen", "cseq", "cexpires", "port", "q"):
         ctx.tlc("MC_Digits", simple_cfg("digits_%s.cfg" % pos, ["OffsMod = 65536", 'Pos = "%s"' % pos], ["Emit", "Arith"]), workers=4, min_records=100)
+    # URI port incl. digits before an '@' (password) and ports above 65535: PortExact is an invariant of MC_URI_port on the model;
+    # every URI is executed on the real ParseURI; drifted and sampled real results are judged by TLC with PortExact
+    r = vlib.run_tlc("MC_URI", "MC_URI_port.cfg", workers=8, timeout=1500)
+    if not r["ok"]: raise Machinery("TLC failed on MC_URI_port:\n" + r["tail"])
+    ctx.states += r["distinct"]; ctx.transitions += r["generated"]
+    dr = os.path.join(r["dir"], "drift.ndjson")
+    rp = vlib.replay(r["out"], drift_out=dr)
+    ctx.records += rp["extra"]["records"]; ctx.impl_traces += rp["extra"]["records"]; ctx.drift += rp["extra"]["drift"]
+    ctx.tlc_runs.append(dict(module="MC_URI", cfg="MC_URI_port.cfg", states=r["distinct"], records=rp["extra"]["records"], drift=rp["extra"]["drift"]))
+    if rp["extra"]["drift"]: ctx.judge("Judge_URI", dr)
+    audit_sample(ctx, r["out"], 499 if ctx.quick else 97)
+    shutil.rmtree(r["dir"], ignore_errors=True)
     # out-of-range numeric headers inside whole messages: rejected one-shot AND under every two-call schedule
     r = vlib.run_tlc("MC_GenMsg", genmsg_cfg(1, "bigclen", "C10"), workers=8, timeout=900)
     if not r["ok"]: raise Machinery("TLC failed on MC_GenMsg bigclen:\n" + r["tail"])
@@ -600,7 +640,7 @@ def plan_C10(ctx):
             if not line.startswith('"{'): continue
             n += 1
             rec = json.loads(json.loads(line)); L = len(rec["wire"])
-            if ctx.quick and n % 4: continue
+            if ctx.quick and zlib.crc32(line.encode()) % 3: continue       # hash sampling: no aliasing with the enumeration order
             for cut in [L] + list(range(20, L - 4, 1 if not ctx.quick else 2)):
                 f.write(json.dumps(json.dumps(dict(rec, cuts=[L] if cut == L else [cut, L]))) + "\n")
     rp = vlib.run_job(dict(mode="replay", inputs_file=inp, max_viol=200, extra=dict(drift_out="")), "c10msg")
@@ -635,7 +675,7 @@ def audit_sample(ctx, tlc_out, every, module="Judge_URI"):
         for line in open(tlc_out, errors="replace"):
             if line.startswith('"{'):
                 k += 1
-                if k % every == 0: f.write(line)
+                if zlib.crc32(line.encode()) % every == 0: f.write(line)
     dr = os.path.join(d, "all.ndjson")
     vlib.run_job(dict(mode="replay", inputs_file=inp, extra=dict(drift_out=dr, dump_all=True)), "audit")
     n = ctx.judge(module, dr)
@@ -712,7 +752,8 @@ def plan_C09(ctx):
         "Type, and for lists N, LastHVal, More, stored prefix, first/last, min/max expires; through ParseNameAddrPVal (From To Contact PAI), "
         "ParseAllContactValues (capacities 0 1 2 4), ParseAllPAIValues, ParseHeaders and ParseSIPMsg. Keys the statement does not "
         "determine (Name with LWS before '<', duplicate parameter names ...) are not compared.")
-    slices = ["single", "lists", "inmsg", "listsws"] + ([] if ctx.quick else ["lws", "params3"])
+    slices = ["single", "lists", "inmsg", "listsws", "lws", "params3"]
+    gen_corpus(ctx, 2 if ctx.quick else 3, "cexp", "C09")
     for sl in slices:
         ctx.tlc("MC_GenNameAddr", "MC_GenNameAddr_%s.cfg" % sl, workers=8, min_records=1000)
     ctx.nontrivial = ctx.records
@@ -769,7 +810,7 @@ def plan_C05(ctx):
             for line in open(r["out"], errors="replace"):
                 if not line.startswith('"{'): continue
                 n += 1
-                if n % every: continue
+                if every > 1 and zlib.crc32(line.encode()) % every: continue
                 rec = json.loads(json.loads(line))
                 for cuts in ([len(rec["wire"])], [len(rec["wire"]) // 2, len(rec["wire"])], [len(rec["wire"]) - 3, len(rec["wire"])]):
                     f.write(json.dumps(json.dumps(dict(rec, cuts=cuts, src="gen"))) + "\n")
@@ -841,4 +882,19 @@ def plan_C17(ctx):
     ctx.nontrivial = ctx.records
     ctx.need("generated parameter lists executed on the real parsers", ctx.records, 100000)
 
-PLANS = dict(C17=plan_C17, C08=plan_C08, C20=plan_C20, C05=plan_C05, C19=plan_C19, C09=plan_C09, C14=plan_C14, C18=plan_C18, selftest=selftest, C10=plan_C10, C16=plan_C16, C01=plan_C01, C02=plan_C02, C03=plan_C03, C04=plan_C04, C06=plan_C06, C07=plan_C07, C11=plan_C11, C12=plan_C12, C13=plan_C13)
+def plan_C15(ctx):
+    ctx.extra["rule"] = ("GenURI.tla: abstract URIs (scheme, user, pass, host, port, <= 2 params of 8 names, <= 2 headers) rendered to text, with "
+        "re-cased / permuted / user-case / parameter-presence variants; GU_Demand = the answer the LAWS determine (eq / ne / none). URICmp.tla "
+        "transcribes URICmpShort / URIParamsLstEq / URIHdrsLstEq / URICmp / URIParseCmp / URIRawCmp; TLC checks Reflexive, Symmetric, "
+        "CaseInsensitive, OrderInsensitive, FlagMonotone (all 64 flag sets in the flags64 slices), EntryPointsAgree on the model. Every pair x "
+        "flags is executed on the real functions: demanded answers (decl), drift, and on the REAL results: entry points agree incl. the URIs "
+        "handed back, symmetry, flag monotonicity.")
+    # (slices drift_dups / drift_badlist are outside the property's domain -- duplicate names, ill-formed lists -- and not run)
+    slices = ["refl", "recase", "usercase", "presence", "flags64v"] + ([] if ctx.quick else
+             ["permute", "probe_emptyval", "allpairs_core", "allpairs_lists", "flags64", "probe_extra", "probe_hdrextra", "probe_hvalcase"])
+    for sl in slices:
+        ctx.tlc("MC_URICmp", "MC_URICmp_%s.cfg" % sl, workers=8, min_records=1000, timeout=3000)
+    ctx.nontrivial = ctx.records
+    ctx.need("URI pairs x flags compared on the real code", ctx.records, 100000)
+
+PLANS = dict(C15=plan_C15, C17=plan_C17, C08=plan_C08, C20=plan_C20, C05=plan_C05, C19=plan_C19, C09=plan_C09, C14=plan_C14, C18=plan_C18, selftest=selftest, C10=plan_C10, C16=plan_C16, C01=plan_C01, C02=plan_C02, C03=plan_C03, C04=plan_C04, C06=plan_C06, C07=plan_C07, C11=plan_C11, C12=plan_C12, C13=plan_C13)
